@@ -214,6 +214,12 @@ pub fn one(ctx: &mut Ctx, input: &str, ext_bits: u32, full_parse: bool) {
                 }
             }
         }
+        // `recipe_ref_check` against its model (lean/CookModel/Analysis/RefCheck.lean, op `recipe_rc`): the whole report
+        if !crate::props::c06::has_front_matter(input) {
+            let has_ref = evs.iter().any(|e| matches!(e, Event::Ingredient(i) if i.modifiers.contains(cooklang::parser::Modifiers::RECIPE)));
+            let h = crate::util::hash64(input);
+            if has_ref || h % 16 == 0 { ref_check_case(ctx, input, ext_bits, (h % 2) as u8, if has_ref { &[1, 2, 3] } else { &[1] }, has_ref, &desc); }
+        }
         // front matter interpreted (labels of its diagnostics included) against the model of `process_frontmatter`
         if crate::props::c06::has_front_matter(input) { let h = crate::util::hash64(input); crate::fm::fm_case(ctx, input, ext_bits, (h % 2) as u8, ((h / 2) % 4) as u8); }
         for conv in [Converter::empty(), Converter::bundled()] {
@@ -234,6 +240,47 @@ pub fn one(ctx: &mut Ctx, input: &str, ext_bits: u32, full_parse: bool) {
                 }
             }
         }
+    }
+}
+
+/// the callbacks of the `recipe_rc` operation (lean/CookModel/Driver/RefCheck.lean, `rcChecker`)
+fn ref_checker(mode: u8) -> Box<dyn FnMut(&str) -> cooklang::analysis::CheckResult> {
+    use cooklang::analysis::CheckResult;
+    match mode {
+        1 => Box::new(|name: &str| if name.contains('a') { CheckResult::Error(vec!["no such recipe".into()]) } else if name.len() > 4 { CheckResult::Warning(vec![]) } else { CheckResult::Ok }),
+        2 => Box::new(|_: &str| CheckResult::Error(vec![])),
+        _ => Box::new(|name: &str| if name.len() % 2 == 1 { CheckResult::Warning(vec!["odd".into()]) } else { CheckResult::Ok }),
+    }
+}
+
+/// One document without front matter under `ParseOptions { recipe_ref_check }`: the whole report (every diagnostic with
+/// its labels, in order) of `parse_with_options` against the model (`RC.parseRecipeR`); oracle: the label of every
+/// "Referenced recipe not found" diagnostic is the span of an ingredient event of the document.
+fn ref_check_case(ctx: &mut Ctx, input: &str, ext_bits: u32, conv: u8, modes: &[u8], has_ref: bool, desc: &str) {
+    let ext = Extensions::from_bits_retain(ext_bits);
+    let parser = CooklangParser::new(ext, if conv == 0 { Converter::empty() } else { Converter::bundled() });
+    let igr_spans: Vec<Span> = PullParser::new(input, ext).filter_map(|e| match e { Event::Ingredient(i) => Some(i.span()), _ => None }).collect();
+    for &mode in modes {
+        let r = guarded(|| parser.parse_with_options(input, cooklang::analysis::ParseOptions { recipe_ref_check: Some(ref_checker(mode)), metadata_validator: None }));
+        let mut n = 0;
+        let reply = match &r {
+            Err(_) => "PANIC".to_string(),
+            Ok(res) => {
+                for d in res.report().iter() {
+                    if diag_kind(d) == "recipe-not-found" {
+                        n += 1;
+                        ctx.count(&format!("refcheck:mode{mode}:{}", sev_stage(d).0));
+                        if d.labels.len() != 1 || !igr_spans.contains(&d.labels[0].0) {
+                            ctx.oracle_fail(format!("{desc} (recipe_ref_check callback {mode})"), format!("the label of the recipe check {:?} is not the span of an ingredient of the document", d.labels.iter().map(|l| r_span(l.0)).collect::<Vec<_>>()), "c04:refcheck:label".into());
+                        }
+                    }
+                }
+                let dstr = crate::fm::r_report(res.report(), false);
+                if res.output().is_some() { format!("OUT {dstr}") } else { format!("NOOUT {dstr}") }
+            }
+        };
+        if has_ref && n == 0 { ctx.count(&format!("refcheck:mode{mode}:reference-without-diagnostic")); }
+        ctx.case(format!("recipe_rc {ext_bits} {conv} {mode} {}", enc_text(input)), reply, n > 0, format!("{desc} (recipe_ref_check callback {mode})"));
     }
 }
 
@@ -306,7 +353,7 @@ pub fn inputs(ctx: &mut Ctx, tag: u64, f: &mut dyn FnMut(&mut Ctx, &str, u32)) {
 }
 
 pub fn run(ctx: &mut Ctx) {
-    ctx.rule = "inputs: corpus, all strings of <=2 (quick) / <=3 (thorough) symbols of a 47-symbol token alphabet (multi-byte chars, CRLF, fences, comments), random token soups, structured random recipes with single-token mutations; all 256 raw extension patterns round-robin; per input: token stream through the hook (tiling), PullParser events (every span + every fragment), full parse with empty and bundled converter (labels, SourceReport::write with and without colour). non-trivial = more than Start/End events or any token; distinct = distinct request lines".into();
+    ctx.rule = "inputs: corpus, all strings of <=2 (quick) / <=3 (thorough) symbols of a 47-symbol token alphabet (multi-byte chars, CRLF, fences, comments), random token soups, structured random recipes with single-token mutations; all 256 raw extension patterns round-robin; per input: token stream through the hook (tiling), PullParser events (every span + every fragment), full parse with empty and bundled converter (labels, SourceReport::write with and without colour). inputs without front matter that carry an `@@` ingredient (and a 1/16 sample of the rest): the whole report of parse_with_options under three recipe_ref_check callbacks against the model (recipe_rc). non-trivial = more than Start/End events or any token; distinct = distinct request lines".into();
     inputs(ctx, 0xC04, &mut |ctx, s, e| one(ctx, s, e, true));
     crate::fm::family(ctx, 0xC04);
 }
